@@ -356,6 +356,11 @@ func redactPipelineStage(stage interface{}, redactFieldNames bool, keyPath []str
 					}
 				}
 			}
+			if vStr, ok := v.(string); ok && redactNamespaces && (k == "$unionWith" || k == "$merge" || k == "$out") {
+				// short form: the stage names a collection
+				newMap.Set(redactedKey, HashName(vStr))
+				continue
+			}
 			switch meta := opMeta.(type) {
 			case OperatorType:
 				switch meta {
